@@ -53,6 +53,7 @@ import (
 	"reflect"
 	"runtime"
 	"slices"
+	"sync"
 	"sync/atomic"
 	_ "unsafe"
 
@@ -92,6 +93,7 @@ type interpreter struct {
 	ex                 *Explorer              // symbolic explorer (nil = concrete run)
 	panicActive        bool
 	panicSite          string
+	panicInner         string
 	inInit             int
 	cfg                *Config
 }
@@ -108,13 +110,59 @@ type frame struct {
 	caller           *frame
 	fn               *ssa.Function
 	block, prevBlock *ssa.BasicBlock
-	env              map[ssa.Value]value // dynamic values of SSA variables
+	env              []value // dynamic values of SSA variables, indexed by info.index
+	info             *fnInfo
+	envSet           []bool
 	locals           []value
 	defers           *deferred
 	result           value
 	panicking        bool
 	panic            interface{}
 	phitemps         []value // temporaries for parallel phi assignment
+}
+
+type fnInfo struct {
+	index map[ssa.Value]int
+	n     int
+}
+
+var fnInfos sync.Map
+
+func infoOf(fn *ssa.Function) *fnInfo {
+	if v, ok := fnInfos.Load(fn); ok {
+		return v.(*fnInfo)
+	}
+	in := &fnInfo{index: map[ssa.Value]int{}}
+	add := func(v ssa.Value) {
+		if _, ok := in.index[v]; !ok {
+			in.index[v] = in.n
+			in.n++
+		}
+	}
+	for _, p := range fn.Params {
+		add(p)
+	}
+	for _, p := range fn.FreeVars {
+		add(p)
+	}
+	for _, l := range fn.Locals {
+		add(l)
+	}
+	for _, b := range fn.Blocks {
+		for _, ins := range b.Instrs {
+			if v, ok := ins.(ssa.Value); ok {
+				add(v)
+			}
+		}
+	}
+	v, _ := fnInfos.LoadOrStore(fn, in)
+	return v.(*fnInfo)
+}
+
+func (fr *frame) set(key ssa.Value, v value) {
+	ix := fr.info.index[key]
+	fr.env[ix] = v
+	fr.envSet[ix] = true
 }
 
 func (fr *frame) get(key ssa.Value) value {
@@ -135,8 +183,13 @@ func (fr *frame) get(key ssa.Value) value {
 		fr.i.globals[key] = &cell
 		return &cell
 	}
-	if r, ok := fr.env[key]; ok {
-		return r
+	if ix, ok := fr.info.index[key]; ok {
+		if r := fr.env[ix]; r != nil {
+			return r
+		}
+		if fr.envSet[ix] {
+			return nil
+		}
 	}
 	panic(fmt.Sprintf("get: no value for %T: %v", key, key.Name()))
 }
@@ -202,39 +255,39 @@ func visitInstr(fr *frame, instr ssa.Instruction) continuation {
 		// no-op
 
 	case *ssa.UnOp:
-		fr.env[instr] = unopSym(instr, fr.get(instr.X))
+		fr.set(instr, unopSym(instr, fr.get(instr.X)))
 
 	case *ssa.BinOp:
-		fr.env[instr] = binopSym(instr, fr.get(instr.X), fr.get(instr.Y))
+		fr.set(instr, binopSym(instr, fr.get(instr.X), fr.get(instr.Y)))
 
 	case *ssa.Call:
 		fn, args := prepareCall(fr, &instr.Call)
 		if fr.i.inInit > 0 && isInitFn(fr.fn) {
-			fr.env[instr] = callTolerant(fr, instr, fn, args)
+			fr.set(instr, callTolerant(fr, instr, fn, args))
 		} else {
-			fr.env[instr] = call(fr.i, fr, instr.Pos(), fn, args)
+			fr.set(instr, call(fr.i, fr, instr.Pos(), fn, args))
 		}
 
 	case *ssa.ChangeInterface:
-		fr.env[instr] = fr.get(instr.X)
+		fr.set(instr, fr.get(instr.X))
 
 	case *ssa.ChangeType:
-		fr.env[instr] = fr.get(instr.X) // (can't fail)
+		fr.set(instr, fr.get(instr.X)) // (can't fail)
 
 	case *ssa.Convert:
-		fr.env[instr] = convSym(instr.Type(), instr.X.Type(), fr.get(instr.X))
+		fr.set(instr, convSym(instr.Type(), instr.X.Type(), fr.get(instr.X)))
 
 	case *ssa.SliceToArrayPointer:
-		fr.env[instr] = sliceToArrayPointer(instr.Type(), instr.X.Type(), fr.get(instr.X))
+		fr.set(instr, sliceToArrayPointer(instr.Type(), instr.X.Type(), fr.get(instr.X)))
 
 	case *ssa.MakeInterface:
-		fr.env[instr] = iface{t: instr.X.Type(), v: fr.get(instr.X)}
+		fr.set(instr, iface{t: instr.X.Type(), v: fr.get(instr.X)})
 
 	case *ssa.Extract:
-		fr.env[instr] = fr.get(instr.Tuple).(tuple)[instr.Index]
+		fr.set(instr, fr.get(instr.Tuple).(tuple)[instr.Index])
 
 	case *ssa.Slice:
-		fr.env[instr] = slice(fr.get(instr.X), fr.get(instr.Low), fr.get(instr.High), fr.get(instr.Max))
+		fr.set(instr, slice(fr.get(instr.X), fr.get(instr.Low), fr.get(instr.High), fr.get(instr.Max)))
 
 	case *ssa.Return:
 		switch len(instr.Results) {
@@ -305,17 +358,17 @@ func visitInstr(fr *frame, instr ssa.Instruction) continuation {
 		}()
 
 	case *ssa.MakeChan:
-		fr.env[instr] = make(chan value, concInt(fr.get(instr.Size), "makechan"))
+		fr.set(instr, make(chan value, concInt(fr.get(instr.Size), "makechan")))
 
 	case *ssa.Alloc:
 		var addr *value
 		if instr.Heap {
 			// new
 			addr = new(value)
-			fr.env[instr] = addr
+			fr.set(instr, addr)
 		} else {
 			// local
-			addr = fr.env[instr].(*value)
+			addr = fr.env[fr.info.index[instr]].(*value)
 		}
 		*addr = zero(mustDeref(instr.Type()))
 
@@ -334,7 +387,7 @@ func visitInstr(fr *frame, instr ssa.Instruction) continuation {
 		for i := range slice {
 			slice[i] = zero(tElt)
 		}
-		fr.env[instr] = slice[:nlen]
+		fr.set(instr, slice[:nlen])
 
 	case *ssa.MakeMap:
 		var reserve int64
@@ -347,19 +400,19 @@ func visitInstr(fr *frame, instr ssa.Instruction) continuation {
 		if !fitsInt(reserve, fr.i.sizes) {
 			panic(fmt.Sprintf("ssa.MakeMap.Reserve value %d does not fit in int", reserve))
 		}
-		fr.env[instr] = makeMap(instr.Type().Underlying().(*types.Map).Key(), reserve)
+		fr.set(instr, makeMap(instr.Type().Underlying().(*types.Map).Key(), reserve))
 
 	case *ssa.Range:
-		fr.env[instr] = rangeIter(fr.get(instr.X), instr.X.Type())
+		fr.set(instr, rangeIter(fr.get(instr.X), instr.X.Type()))
 
 	case *ssa.Next:
-		fr.env[instr] = fr.get(instr.Iter).(iter).next()
+		fr.set(instr, fr.get(instr.Iter).(iter).next())
 
 	case *ssa.FieldAddr:
-		fr.env[instr] = &(*fr.get(instr.X).(*value)).(structure)[instr.Field]
+		fr.set(instr, &(*fr.get(instr.X).(*value)).(structure)[instr.Field])
 
 	case *ssa.Field:
-		fr.env[instr] = fr.get(instr.X).(structure)[instr.Field]
+		fr.set(instr, fr.get(instr.X).(structure)[instr.Field])
 
 	case *ssa.IndexAddr:
 		x := fr.get(instr.X)
@@ -382,25 +435,25 @@ func visitInstr(fr *frame, instr ssa.Instruction) continuation {
 			}
 			if isScalarType(et) && len(elems) <= 4096 {
 				if len(elems) == 1 {
-					fr.env[instr] = &elems[0]
+					fr.set(instr, &elems[0])
 				} else {
-					fr.env[instr] = symptr{elems, idxTerm(idx)}
+					fr.set(instr, symptr{elems, idxTerm(idx)})
 				}
 			} else {
-				fr.env[instr] = &elems[concInt(idx, "index")]
+				fr.set(instr, &elems[concInt(idx, "index")])
 			}
 		} else {
-			fr.env[instr] = &elems[asInt64(idx)]
+			fr.set(instr, &elems[asInt64(idx)])
 		}
 
 	case *ssa.Index:
 		x := fr.get(instr.X)
 		idx := fr.get(instr.Index)
 
-		fr.env[instr] = indexValue(instr, x, idx)
+		fr.set(instr, indexValue(instr, x, idx))
 
 	case *ssa.Lookup:
-		fr.env[instr] = lookupSym(fr, instr, fr.get(instr.X), fr.get(instr.Index))
+		fr.set(instr, lookupSym(fr, instr, fr.get(instr.X), fr.get(instr.Index)))
 
 	case *ssa.MapUpdate:
 		m := fr.get(instr.Map)
@@ -419,14 +472,14 @@ func visitInstr(fr *frame, instr ssa.Instruction) continuation {
 		}
 
 	case *ssa.TypeAssert:
-		fr.env[instr] = typeAssert(fr.i, instr, fr.get(instr.X).(iface))
+		fr.set(instr, typeAssert(fr.i, instr, fr.get(instr.X).(iface)))
 
 	case *ssa.MakeClosure:
 		var bindings []value
 		for _, binding := range instr.Bindings {
 			bindings = append(bindings, fr.get(binding))
 		}
-		fr.env[instr] = &closure{instr.Fn.(*ssa.Function), bindings}
+		fr.set(instr, &closure{instr.Fn.(*ssa.Function), bindings})
 
 	case *ssa.Phi:
 		log.Fatal("unreachable") // phis are processed at block entry
@@ -475,7 +528,7 @@ func visitInstr(fr *frame, instr ssa.Instruction) continuation {
 				r = append(r, v)
 			}
 		}
-		fr.env[instr] = r
+		fr.set(instr, r)
 
 	default:
 		panic(fmt.Sprintf("unexpected instruction: %T", instr))
@@ -594,18 +647,20 @@ func callSSA(i *interpreter, caller *frame, callpos token.Pos, fn *ssa.Function,
 		panic("interp requires ssa.BuilderMode to include InstantiateGenerics to execute generics")
 	}
 
-	fr.env = make(map[ssa.Value]value)
+	fr.info = infoOf(fn)
+	fr.env = make([]value, fr.info.n)
+	fr.envSet = make([]bool, fr.info.n)
 	fr.block = fn.Blocks[0]
 	fr.locals = make([]value, len(fn.Locals))
 	for i, l := range fn.Locals {
 		fr.locals[i] = zero(mustDeref(l.Type()))
-		fr.env[l] = &fr.locals[i]
+		fr.set(l, &fr.locals[i])
 	}
 	for i, p := range fn.Params {
-		fr.env[p] = args[i]
+		fr.set(p, args[i])
 	}
 	for i, fv := range fn.FreeVars {
-		fr.env[fv] = env[i]
+		fr.set(fv, env[i])
 	}
 	for fr.block != nil {
 		runFrame(fr)
@@ -646,6 +701,10 @@ func runFrame(fr *frame) {
 		}
 		if !fr.i.panicActive {
 			fr.i.panicActive = true
+			fr.i.panicSite = ""
+			fr.i.panicInner = fr.fn.String()
+		}
+		if fr.i.panicSite == "" && isAcraFn(fr.fn) {
 			fr.i.panicSite = fr.fn.String()
 		}
 		fr.panicking = true
@@ -714,7 +773,7 @@ func executePhis(fr *frame) []ssa.Instruction {
 			fr.phitemps = append(fr.phitemps, fr.get(phi.Edges[predIndex]))
 		}
 		for i, phi := range phis {
-			fr.env[phi.(*ssa.Phi)] = fr.phitemps[i]
+			fr.set(phi.(*ssa.Phi), fr.phitemps[i])
 		}
 	}
 	return nonPhis
